@@ -16,7 +16,7 @@ rng = random.Random(seed * 7919 + 3)
 cases = [c for c in prop.gen(rng, "quick") if not enums or c.get("enum") in enums]
 for c in cases:
     c["expect_ok"] = True
-bad, mos, _ = core.evaluate(prop, cases, [0, 1, 2, 3], prop.CASE_TIMEOUT)
+bad, mos, _ = core.evaluate(prop, cases, [0, 1, 2, 3], int(os.environ.get("OK_TIMEOUT", prop.CASE_TIMEOUT)))
 badkeys = {core.digest(b[0]) for b in bad}
 os.makedirs(os.path.join(V, "corpus", pid), exist_ok=True)
 kept = 0
